@@ -3,6 +3,27 @@
 NOT_BUILT = "contracts for the functions this property depends on are not built yet (build in progress, see DESIGN.md section 9); nothing is claimed"
 
 CLAIMED = {
+    "C14": ("symbolic execution of the Corr methods with exact loop summaries + z3, contracts over all T and all undefined-slice patterns",
+            "Proof (N = 1, real content). Each operator method (__add__, __sub__, __mul__, __truediv__, __neg__, __pow__, __abs__, reflected "
+            "variants), each elementary function (log, exp, 12 functions through _apply_func_to_corr) and the index transformations reverse, "
+            "thin, symmetric are executed symbolically from the current source for a correlator of symbolic length T with a symbolic "
+            "pattern of undefined slices and partner kinds Corr / Obs / int / float; the postcondition states for EVERY timeslice that the "
+            "result is undefined iff an operand is, and equals the operation on the operands' entries otherwise; writes to self, partners and "
+            "arguments are frame obligations (this is how the print_range mutation of __repr__ was found and fixed).",
+            "DESIGN.md section 6 C14",
+            "Observables are abstracted by their central value (an identity of real functions lifts to observables by C01, assumed here); "
+            "Obs objects are truthy; np.roll / Hankel / projected / trace / item / matrix_symmetric / T_symmetry / anti_symmetric, matrix-valued "
+            "content (N > 1), complex content and complex or ndarray partners are NOT decided by this check; Corr.__init__ is an assumed contract; "
+            "NaN filtering is vacuous over the reals."),
+    "C15": ("symbolic execution of deriv / second_deriv with exact loop summaries + z3 over all T and undefined-slice patterns",
+            "Proof (N = 1). deriv (symmetric, forward, backward, improved) and second_deriv (symmetric, big_symmetric, improved) are executed "
+            "symbolically for symbolic T and a symbolic pattern of undefined slices; postcondition for every t: undefined iff a slice the "
+            "documented formula references is undefined, otherwise equal to the documented finite-difference formula (linear real arithmetic), "
+            "padding undefined, ValueError iff every output slice is undefined, and no TypeError on interior undefined slices (safe obligations; "
+            "this is how the second_deriv defect was found and fixed).",
+            "DESIGN.md section 6 C15",
+            "Same abstraction as C14. NOT decided by this check: the log variants (composition through np.log and Corr multiplication), m_eff "
+            "(all variants), plateau and fit; identity of fluctuations rests on C01."),
     "C20": ("exact finite evaluation of the AST tables + symbolic execution with z3 (all integers) + vjp identity over an uninterpreted K_n",
             "Proof. The module-level gamma matrices are read from the AST as exact Gaussian rationals and all Clifford / hermiticity / gamma5 "
             "relations and all 16 Grid_gamma branches are decided by exact arithmetic (finite domain, exhaustive). epsilon_tensor and "
